@@ -196,9 +196,9 @@ fn run(values: bool, signals: bool, ctx: &Ctx, r: &mut Report) {
 		}
 		return;
 	}
-	let ncfg = ctx.pick(24, 200);
-	let classes: &[usize] = if ctx.thorough { &[0, 1, 2, 3, 4, 6, 7] } else { &[0, 1, 3, 4] };
-	let steps = ctx.pick(400, 1500);
+	let ncfg = ctx.pick(60, 200);
+	let classes: &[usize] = if ctx.thorough { &[0, 1, 2, 3, 4, 6, 7] } else { &[0, 1, 2, 3, 4, 7] };
+	let steps = ctx.pick(600, 1500);
 	let mut k = 0u64;
 	let mut uncovered = Vec::new();
 	for d in reg::indicators() {
